@@ -117,6 +117,22 @@ def check_C05(ctx):
         src = b"\n".join(render_block(b) for b in blocks) + b"\nbind " + btype.encode() + (b":all -> slice\n" if slice_ else b" -> struct\n")
         cases.append(dict(id="u%d" % i, type=dict(k="slice", elem=ty) if slice_ else ty, mode="ptr", bkind="slice" if slice_ else "struct",
                           blocks=blocks, src=src, prev=rng.choice([0, 3]), prefill=rng.random() < 0.4))
+    # hand-written shapes: the same key at several nesting levels (outer scalar before and after the nested block), every
+    # admitted spelling, names needing escapes
+    from .p_bind import fld, INT, STR, BOOL, FLT
+    T = lambda *fs: dict(k="struct", fields=list(fs))
+    deep = T(fld("Name", STR), fld("Port", INT), fld("Limits", T(fld("Name", STR), fld("Port", INT), fld("On", BOOL))),
+             fld("Extra", T(fld("Port", INT), fld("Depth", T(fld("Port", INT))))), fld("Label", STR))
+    for k, order in enumerate([("port", "limits", "extra", "label"), ("limits", "port", "label", "extra"), ("extra", "label", "limits", "port")]):
+        parts = dict(port=["port", "i8080"], label=["label", "s6f75746572"],
+                     limits=["limits.inner", dict(t="limits", n="inner", f=[["port", "i9090"], ["on", "b1"]])],
+                     extra=["extra", dict(t="extra", n="", f=[["port", "i1"], ["depth", dict(t="depth", n="", f=[["port", "i2"]])]])])
+        blk = dict(t="srv", n='C:\\temp "q"', f=[parts[x] for x in order])
+        for slice_ in (False, True):
+            blocks = [blk] if not slice_ else [blk, dict(t="srv", n="", f=[["PORT", "i-5"], ["La_bel", "s"]])]
+            src = b"\n".join(render_block(b) for b in blocks) + b"\nbind srv" + (b":all -> slice\n" if slice_ else b" -> struct\n")
+            cases.append(dict(id="deep%d%s" % (k, "s" if slice_ else ""), type=dict(k="slice", elem=deep) if slice_ else deep, mode="ptr",
+                              bkind="slice" if slice_ else "struct", blocks=blocks, src=src, prev=3, prefill=(k == 1)))
     # 1. Bind of the blocks themselves (reference), 2. Unmarshal of the text, 3. the model's reading of the text
     bres, _, _ = ctx.probe("bind", [dict(id=c["id"], type=c["type"], mode="ptr", bkind=c["bkind"], blocks=c["blocks"], prev=c["prev"],
                                          prefill=c["prefill"]) for c in cases], tag="ref")
